@@ -6,6 +6,7 @@ is requested; each hazard class is one way the pinned AstPrinter / apply_changes
 """
 from __future__ import annotations
 
+import os
 import typing as T
 
 HAZARDS = ['quote', 'parens', 'linesep', 'ws_newline', 'raw_newline', 'cr', 'ordercmp', 'nested_edit']
@@ -645,3 +646,168 @@ def gen_commands(rng, meta: T.Dict[str, T.Any], n: int) -> T.List[T.Dict[str, T.
                     opts[k] = None
             cmds.append({'type': 'default_options', 'operation': op, 'options': opts})
     return cmds
+
+
+# ------------------------------------------------------------------------------------------------ multi-directory trees
+
+TREE_BASENAMES = ['main.c', 'helper.c', 'util.c', 'x0.c', 'x1.c']
+
+
+def gen_tree(rng, ncmd: int) -> T.Dict[str, T.Any]:
+    """a project spread over 1-3 subdirectories: targets defined in subdirs, source lists built in one directory
+    (files() / plain strings / variables) and consumed in another, the same basenames in every directory, `../` paths.
+    Every command names files relative to the source ROOT (Rewriter.md)."""
+    eg = ExprGen(rng, None)
+    q = lambda l: ', '.join("'%s'" % s_ for s_ in l)  # noqa: E731
+    subs = rng.sample(['lib', 'app', 'util'], rng.randint(1, 3))
+    nested = None
+    if rng.random() < 0.3:
+        nested = subs[0] + '/inner'
+    dirs = [''] + subs + ([nested] if nested else [])
+    files: T.Dict[str, str] = {}
+    for d in dirs:
+        for b in TREE_BASENAMES + ['new0.c', 'new1.c']:
+            files[os.path.join(d, b)] = ''
+    allfiles = sorted(files)
+    # places in evaluation order: root-pre, each subdir (nested right after its parent), root-post
+    order = ['pre'] + [d for s_ in subs for d in ([s_] + ([nested] if nested and nested.startswith(s_ + '/') else []))] + ['post']
+    body: T.Dict[str, T.List[str]] = {p: [] for p in order}
+    body['pre'] += ['x = true', 'y = false', 'n = 3', 'm = 4', "s = 'str'", "u = 'b-c'", "lst = ['a', 'b', 'c']"]
+
+    def dir_of(place: str) -> str:
+        return '' if place in ('pre', 'post') else place
+
+    def rel(path: str, place: str) -> str:
+        return os.path.relpath(path, dir_of(place) or '.')
+
+    targets: T.Dict[str, T.Any] = {}
+    nvars = 0
+    nt = rng.randint(2, 4)
+    for i in range(nt):
+        name = 'tt%d' % i
+        tplace = rng.choice(order[1:])          # a subdir or root-post
+        tdir = dir_of(tplace)
+        srcs: T.List[str] = []                  # resolved, relative to the source root
+        args = ["'%s'" % name]
+        lists: T.List[T.List[str]] = []
+        # inline plain strings: relative to the target's directory, possibly pointing into another directory
+        inl = []
+        for _ in range(rng.randint(0, 2)):
+            d = rng.choice(dirs) if rng.random() < 0.4 else tdir
+            f = os.path.join(d, rng.choice(TREE_BASENAMES))
+            if f not in srcs:
+                srcs.append(f)
+                inl.append(f)
+                args.append("'%s'" % rel(f, tplace))
+        if inl:
+            lists.append(inl)
+        # lists built in ANOTHER place (earlier in evaluation order), consumed here
+        earlier = order[:order.index(tplace)]
+        for _ in range(rng.randint(1, 2)):
+            vplace = rng.choice(earlier) if rng.random() < 0.8 else tplace
+            if vplace == tplace and tplace != 'post' and body[tplace] is None:
+                continue
+            vdir = dir_of(vplace)
+            kind = rng.choice(['files', 'files', 'files_list', 'plain'])
+            cand = [os.path.join(d, b) for d in ([vdir] + ([rng.choice(dirs)] if rng.random() < 0.3 else [])) for b in TREE_BASENAMES]
+            pick = []
+            for f in rng.sample(cand, rng.randint(1, 3)):
+                if f not in srcs and f not in pick:
+                    pick.append(f)
+            if not pick:
+                continue
+            var = 'srcs_v%d' % nvars
+            nvars += 1
+            if kind == 'plain':
+                # plain strings are relative to the directory of the CONSUMING target
+                body[vplace].append('%s = [%s]' % (var, q([rel(f, tplace) for f in pick])))
+            elif kind == 'files':
+                body[vplace].append('%s = files(%s)' % (var, q([rel(f, vplace) for f in pick])))
+            else:
+                body[vplace].append('%s = files([%s])' % (var, q([rel(f, vplace) for f in pick])))
+            args.append(var)
+            srcs += pick
+            lists.append(pick)
+        if rng.random() < 0.3:
+            f = os.path.join(rng.choice(dirs), rng.choice(TREE_BASENAMES))
+            if f not in srcs:
+                srcs.append(f)
+                lists.append([f])
+                args.append("files('%s')" % rel(f, tplace))
+        if not srcs:
+            f = os.path.join(tdir, 'main.c')
+            srcs.append(f)
+            lists.append([f])
+            args.append("'main.c'")
+        kws = []
+        for k, kind in rng.sample(OTHER_KW, rng.randint(0, 2)):
+            kws.append('%s: %s' % (k, value_text(eg, kind, 1)))
+        if rng.random() < 0.4:
+            kws.append('install: ' + rng.choice(['true', 'false']))
+        func = rng.choice(TARGET_FUNCS)
+        stmt = ('%s = ' % name if rng.random() < 0.8 else '') + func + '(' + join_args(rng, args + kws, False) + ')'
+        if rng.random() < 0.3:
+            stmt += '  # ' + rng.choice(['keep', 'trailing'])
+        body[tplace].append(stmt)
+        targets[name] = {'srcs': list(srcs), 'lists': lists, 'dir': tdir, 'shared': False}
+    # assemble the build files
+    root_lines = ["project('demo'%s)" % rng.choice(['', ", version: '1.0'", ", default_options: ['warning_level=1']"])]
+    root_lines += body['pre']
+    for s_ in subs:
+        root_lines.append("subdir('%s')" % s_)
+    root_lines += body['post']
+    if rng.random() < 0.5:
+        root_lines.append('message(%s)' % eg.strx(1))
+    files['meson.build'] = '\n'.join(root_lines) + '\n'
+    for s_ in subs:
+        lines = ['# ' + s_] + body[s_]
+        if nested and nested.startswith(s_ + '/'):
+            lines.append("subdir('inner')")
+        lines.append("%s_done = true" % s_)
+        files[os.path.join(s_, 'meson.build')] = '\n'.join(lines) + '\n'
+    if nested:
+        files[os.path.join(nested, 'meson.build')] = '\n'.join(['# inner'] + body[nested] + ['inner_done = 1']) + '\n'
+    # commands: every path relative to the source root
+    cmds: T.List[T.Dict[str, T.Any]] = []
+    live = sorted(targets)
+    last_add = None
+    for _ in range(ncmd):
+        t = rng.choice(live)
+        tm = targets[t]
+        r = rng.random()
+        if last_add and rng.random() < 0.5:
+            cmds.append({'type': 'target', 'target': last_add[0], 'operation': 'src_rm', 'sources': last_add[1]})
+            last_add = None
+        elif r < 0.35:
+            fs = [os.path.join(rng.choice(dirs), rng.choice(['new0.c', 'new1.c'])) for _ in range(rng.randint(1, 2))]
+            fs = sorted(set(fs), key=fs.index)
+            cmds.append({'type': 'target', 'target': t, 'operation': 'src_add', 'sources': fs})
+            last_add = (t, fs)
+        elif r < 0.75:
+            r2 = rng.random()
+            if r2 < 0.75:
+                fs = [rng.choice(l) for l in rng.sample(tm['lists'], min(len(tm['lists']), rng.randint(1, 2)))]
+            elif r2 < 0.9:
+                # same basename in the WRONG directory: must not remove anything
+                f = rng.choice(tm['srcs'])
+                others = [os.path.join(d, os.path.basename(f)) for d in dirs if os.path.join(d, os.path.basename(f)) not in tm['srcs']]
+                fs = [rng.choice(others)] if others else [f]
+            else:
+                fs = [rng.choice(tm['srcs'])]
+                fs = ['./' + fs[0]] if rng.random() < 0.5 else fs
+            cmds.append({'type': 'target', 'target': t, 'operation': 'src_rm', 'sources': fs})
+        elif r < 0.82:
+            cmds.append({'type': 'target', 'target': t, 'operation': 'info'})
+        elif r < 0.94:
+            cmds.append({'type': 'kwargs', 'function': 'target', 'id': t, 'operation': rng.choice(['set', 'set', 'delete']),
+                         'kwargs': {'install': rng.random() < 0.5} if rng.random() < 0.7 else {'build_by_default': True}})
+            if cmds[-1]['operation'] == 'delete':
+                cmds[-1]['kwargs'] = {k: None for k in cmds[-1]['kwargs']}
+        else:
+            if len(live) > 1:
+                cmds.append({'type': 'target', 'target': t, 'operation': 'target_rm'})
+                live = [x for x in live if x != t]
+    meta = {'targets': targets, 'deps': {}, 'project': {}, 'hazard': 'tree', 'pool': [], 'extra_pool': [], 'shared': [],
+            'allfiles': allfiles, 'dirs': dirs}
+    return {'files': files, 'cmds': cmds, 'meta': meta, 'mode': 'single', 'prints': False,
+            'cwd': 'root' if rng.random() < 0.25 else 'outside'}
